@@ -383,6 +383,9 @@ fn exec_inner(ctx: &Arc<Ctx>, op: &OpSpec, slots: &mut Slots) -> i64 {
             0
         }
 
+        // phase barrier: passed by all threads waiting at it once every other thread is finished or blocked (the pool is idle)
+        "barrier" => { ctx.sched.yield_now("barrier"); 0 }
+
         "fire" => { ctx.sched.obs("fire", op.g as i64, 0); ctx.fire(op.g); 0 }
 
         // the adversary allowed by the Future contract: every waker ever handed to this event source is invoked (the event does not fire)
